@@ -68,6 +68,13 @@ CHECKS["C13"] = dict(
     technique="forward must-dataflow (must-pass-through with delegation closure, origin tracking) + call-graph reachability over the clang CFG",
 )
 
+CHECKS["C12"] = dict(
+    text="Static decision of the structural clauses of C12 over g1_is_valid, g2_is_valid, gt_is_valid and the exponentiation front ends of src/pc/relic_pc_exp.c under the 256-bit (BN, SM9) and 381-bit (BLS12) configuration headers (thorough: eight further family configurations, i.e. family arms no test configuration reaches): on every path a truthy verdict implies the identity test, the on-curve resp. cyclotomic-subgroup test (or the exact order check) and an order-relation comparison, in every arm of the family switch and the default arm (VALID-ID/-CURVE/-REL, forward must-dataflow with a 'verdict implies' fact set); the element under test is not multiplied by routines that presuppose membership, and the order itself never goes through an order-reducing exponentiation (VALID-MUL); identifier-keyed shortcuts are live only for the reviewed curve, identifier values resolved through the enum of relic_ep.h (VALID-SHORTCUT); exponents are reduced modulo the order before the Frobenius decomposition (EXP-RED) and digit fast paths consult the sign (EXP-SIGN). Right level: non-members, long and negative exponents are never generated by the suite, and a missing conjunct in one family arm only shows in that family's configuration. That each family's relation is equivalent to multiplication by r, and the values of exponentiations, are not decided.",
+    design_ref="DESIGN.md section 3 (C12)",
+    note="Trusted: clang parser/CFG/constant evaluator (enumerator values), extractor, the tables of plain multiplication routines, of order getters and of the reviewed shortcut curve (B12_P383); the a^(r-1) == a^-1 idiom of the default arm is accepted as found (replayed on SG18-P638: rejects cyclotomic non-members). Validated on every run by miniatures in sa/selftest/c12.c.",
+    technique="forward must-dataflow (verdict-implication facts, origin tracking of exponents) over the clang CFG + enum-table resolution",
+)
+
 NOT_APPLICABLE = {
     "C10": "every clause is an equality of ring elements for all operand values; no guard, ordering or ownership structure whose violation is visible in the code's shape, and lazy-reduction bounds need a relational numeric domain that goto-analyzer's intervals cannot carry across the *_low calls",
     "C11": "group law, [k]Q, Frobenius eigenvalue and cofactor image are algebraic identities over runtime values; the structural clauses (decoders, buffers, regularity) of the ep2..ep8 siblings are decided under C07, C08 and C20",
